@@ -137,6 +137,12 @@ def run(chk):
         'the default charge carrier text f"{n}H+" is modelled as the composition {H: n, e: -n}; the parser model returns exactly that for '
         '|n| <= 9 (theorem protons_text_roundtrip) and for the generated charges (correspondence op adduct_comp)',
     ]
+    from peptacular import mass_calc as _mc
+    from peptacular.proforma import proforma_parser as _pp
+    reach = cm.Reach([_mc.comp_mass, _mc.comp, _mc._pop_delta_mass_mods, chem_calc._sequence_comp, chem_calc.mod_comp,
+                      chem_calc.estimate_comp, chem_calc.apply_isotope_mods_to_composition, chem_calc._parse_adduct_comp,
+                      chem_calc._parse_charge_adducts_comp, _pp.parse_isotope_mods, _pp.ProFormaAnnotation.condense_static_mods])
+    reach.start()
     chk.rule = ('annotations with every modification position and kind (numeric, formula, Unimod, PSI-MOD, glycan, "|" alternatives, '
                 'localisation tags, Obs:), multipliers 1..3, intervals, labile/unknown, static rules incl. N-Term/C-Term/multi-residue '
                 'targets, isotope labels x 18 ion types x charge -3..4 or from the string x isotope 0..3 x both modes x adducts in the '
@@ -335,6 +341,7 @@ def run(chk):
         return None
 
     chk.oracle('ion_encodings_agree', cm.ION_TYPES, o_ion)
+    cm.attach_reach(chk, reach)
     if tier == 'thorough':
         chk.leanchecker(['PeptVerif.Props.C03', 'PeptVerif.Model.CompCalc'])
     return chk.finish(classify)
